@@ -389,6 +389,18 @@ def c14e(F, R):
                             b = _range_end(r)
                             if b is not None:
                                 bound = (b, loc(r))
+            # (b') the argument is a local picked out of a range: `let n = (a..b).find(|n| ..)?; from_num(n)`
+            if bound is None and arg.get("k") == "Path" and arg.get("res_kind") == "Local":
+                for st in walk(body, pats=False):
+                    if st.get("k") == "Let" and st.get("init") is not None and any(b_.get("k") == "PBinding" and b_["name"] == arg["res"] for b_ in walk(st["pat"])):
+                        for m in walk(st["init"], pats=False):
+                            if m.get("k") == "MethodCall" and m["name"] in ("find", "position", "next", "min", "max", "last", "nth", "find_map", "rev", "filter", "skip_while"):
+                                r = m
+                                while r.get("k") == "MethodCall":
+                                    r = peel(r["recv"])
+                                be = _range_end(r)
+                                if be is not None:
+                                    bound = (be, loc(r))
             # (c) any comparison of a cursor that feeds from_num with an integer literal in the same body bounds the enumeration
             extra = []
             vars_in_arg = {ekey(x) for x in walk(arg, pats=False) if x.get("k") in ("Field", "Path") and x.get("res_kind") != "Fn"} | {akey}
